@@ -58,6 +58,9 @@ Definition m_body_g (rec aft : iter -> list frame -> bytes -> outcome bytes)
            | _ => Err
            end
     | _ =>
+      (* a closing root right after the value the iterator stood on (the iterators
+         ParsedJson.ForEach hands out): done (fix F20) *)
+      if negb is_open && negb (match out with [] => true | _ => false end) then Ok (rev out) else
       let i0 := if is_open then set_i i (i_off i) 0 (i_cur i) (i_t i) else i in
       do r <- advance_into pj i0;
       rec (fst r) (FRoot :: stack) out
@@ -152,10 +155,12 @@ Proof.
   intros Hok Hf. unfold m_body, m_body_g. cbv zeta. fold (m_after f pj).
   destruct (i_t i =? TagRoot)%N.
   { destruct stack as [|s1 [|s2 rest]].
-    - apply m_into_spec; [|destruct (i_off i <? Z.of_N (i_cur i)); exact Hf].
+    - destruct (negb (i_off i <? Z.of_N (i_cur i)) && negb match out with [] => true | _ => false end); [exact I|].
+      apply m_into_spec; [|destruct (i_off i <? Z.of_N (i_cur i)); exact Hf].
       destruct (i_off i <? Z.of_N (i_cur i)); [|exact Hok].
       destruct Hok as (K1 & K2 & K3 & K4). unfold iter_ok, set_i; cbn. auto with zarith.
-    - apply m_into_spec; [|destruct (i_off i <? Z.of_N (i_cur i)); exact Hf].
+    - destruct (negb (i_off i <? Z.of_N (i_cur i)) && negb match out with [] => true | _ => false end); [exact I|].
+      apply m_into_spec; [|destruct (i_off i <? Z.of_N (i_cur i)); exact Hf].
       destruct (i_off i <? Z.of_N (i_cur i)); [|exact Hok].
       destruct Hok as (K1 & K2 & K3 & K4). unfold iter_ok, set_i; cbn. auto with zarith.
     - destruct (i_off i <? Z.of_N (i_cur i)); [exact I|].
@@ -349,7 +354,8 @@ Proof.
   destruct (i_t i =? TagRoot)%N.
   { destruct stack as [|s1 [|s2 rest]].
     - inversion Hs.
-    - destruct (advance_into pj _); cbn [obind]; try reflexivity.
+    - destruct (negb (i_off i <? Z.of_N (i_cur i)) && negb match out with [] => true | _ => false end); [reflexivity|].
+      destruct (advance_into pj _); cbn [obind]; try reflexivity.
       apply Hr. constructor; [discriminate|exact Hs].
     - destruct (i_off i <? Z.of_N (i_cur i)); [reflexivity|].
       cbn [stk_top]. destruct s1; try reflexivity.
